@@ -610,6 +610,8 @@ def run_shard(shard):
             run_case(case, acc)
         acc.count("exhaustive_subset_cases", acc.evals)
         acc.exhaustive = True
+        acc.extra["exhaustive_part"] = ("all 2**10 subsets of the optional meminfo keys x zoneinfo present/absent, one "
+                                        "in-range magnitude profile; the other shards are random")
     elif shard["kind"] == "gen":
         for i in range(shard["start"], shard["start"] + shard["count"]):
             rng = harness.rng_for(shard["seed"], "c08", i)
